@@ -36,8 +36,8 @@ func genC14(t *rapid.T) c14Case {
 	c.Family = rapid.SampledFrom([]string{"value", "value", "throw", "syntax", "loop", "loop", "slow"}).Draw(t, "family")
 	c.Variant = rapid.IntRange(0, 5).Draw(t, "variant")
 	c.Placement = rapid.SampledFrom([]string{"run", "action", "condition"}).Draw(t, "placement")
-	c.Source = rapid.SampledFrom([]string{"control", "control", "default", "off"}).Draw(t, "source")
-	if c.Family == "loop" && c.Source == "off" {
+	c.Source = rapid.SampledFrom([]string{"control", "control", "default", "off", "locoff"}).Draw(t, "source")
+	if c.Family == "loop" && (c.Source == "off" || c.Source == "locoff") {
 		c.Source = "control"
 	}
 	c.LimitMs = rapid.SampledFrom([]int{20, 50, 100, 200}).Draw(t, "limit")
@@ -94,6 +94,11 @@ func (c c14Case) script() (code string, want interface{}) {
 			return "var n = 0; while (n >= 0) { n = (n + 1) % 1000; }", nil
 		}
 	default: // slow but finishing well within the limit
+		if c.Source == "off" || c.Source == "locoff" {
+			// timeouts are disabled (globally / for this location): a
+			// script may run longer than the (system default) limit
+			return fmt.Sprintf("var t0 = Date.now(); while (Date.now() - t0 < %d) {} x + 3", 3*c.LimitMs), c.X + 3
+		}
 		switch c.Variant % 2 {
 		case 0:
 			return fmt.Sprintf("Env.sleep(%d); x + 2", int64(c.LimitMs)*1e6/4), c.X + 2
@@ -130,6 +135,12 @@ func runC14(c c14Case) *vlib.Outcome {
 		core.SystemParameters.DefaultJavascriptTimeout = limit
 	case "off":
 		core.SystemParameters.JavascriptTimeouts = false
+	case "locoff":
+		// a negative location timeout means "no timeout" for this
+		// location although the system has a default
+		w.ctrl.JavascriptTimeout = core.Duration(-1)
+		core.SystemParameters.JavascriptTimeouts = true
+		core.SystemParameters.DefaultJavascriptTimeout = limit
 	}
 	loc, err := w.open("L")
 	if err != nil {
@@ -206,7 +217,7 @@ func runC14(c c14Case) *vlib.Outcome {
 		call()
 	}()
 	hard := limit + 5*time.Second
-	if c.Source == "off" {
+	if c.Source == "off" || c.Source == "locoff" {
 		hard = 10 * time.Second
 	}
 	select {
